@@ -127,11 +127,14 @@ static CaseResult tunnel_case(Tape &t)
 {
 	CaseResult r;
 	tun::Run R;
+	tun::tight_m() = getenv("VERIF_TIGHT_M") ? true : t.chance(1, 3);
+	bool tight = tun::tight_m();
 	tun::run_tunnel(t, t.chance(1, 2) ? tun::CLEAN : tun::FAULTY, R);
-	r.render = "tunnel: " + R.render.substr(0, 600) + fmt(" | client msgs %llu server msgs %llu long names %llu", (unsigned long long)R.wm.n_cli_dns, (unsigned long long)R.wm.n_srv_dns, (unsigned long long)R.wm.n_long_q);
+	tun::tight_m() = false;
+	r.render = std::string(tight ? "tunnel (any accepted -M): " : "tunnel: ") + R.render.substr(0, 600) + fmt(" | client msgs %llu server msgs %llu long names %llu", (unsigned long long)R.wm.n_cli_dns, (unsigned long long)R.wm.n_srv_dns, (unsigned long long)R.wm.n_long_q);
 	if (R.v.failed("C10")) r.fail(R.v.first["C10"].sig, R.v.first["C10"].why + "\n" + r.render);
 	r.nontrivial = R.up && R.wm.n_cli_dns > 20;
-	r.cls("tunnel"); for (auto &c : R.classes) if (c.compare(0, 5, "type:") == 0) r.cls("tunnel-" + c);
+	r.cls("tunnel"); if (tight) r.cls("tunnel-tight-M"); for (auto &c : R.classes) if (c.compare(0, 5, "type:") == 0) r.cls("tunnel-" + c);
 	return r;
 }
 
